@@ -395,6 +395,15 @@ def run(repo, res):
     if n_empty < 3:
         raise AnalysisError("R09.5: fewer np.empty sites than expected")
 
+    # R09.8 ---------------------------------------------------------------------------
+    from .common import borrow
+
+    borrow(repo, res, "c36", "R36.4", "R09.8", "(= R36.4) the on-disk prior cache is written losslessly, so the call that fills the cache and every later call or process that loads it compute from identical tables")
+    # R09.7 ---------------------------------------------------------------------------
+    from .c12 import prior_space_follows_likelihood
+
+    res.rule("R09.7", "a reused prior object gives the same result as a fresh one: BeliefPropagation.__init__ converts it to the likelihood's space unconditionally, whichever space an earlier run left it in")
+    prior_space_follows_likelihood(repo, res, "R09.7")
     # R09.6 ---------------------------------------------------------------------------
     MUTATING = {"standardize", "to_probabilities", "force_probability_space", "__setitem__"}
     n_pr = 0
@@ -425,6 +434,8 @@ def run(repo, res):
 
 
 VARIANTS = [
+    dict(name="cache-rounded-on-write", mod="prior", expect="fire", rule="R09.8", old="                np.savetxt(f, prior_lookup_table)\n", new="                np.savetxt(f, prior_lookup_table, fmt=\"%.9g\")\n"),
+    dict(name="prior-conversion-only-towards-log", mod="discrete", expect="fire", rule="R09.7", old="        self.priors.force_probability_space(lik.probability_space)\n", new="        if lik.probability_space == LOG_GRID:\n            self.priors.force_probability_space(lik.probability_space)\n"),
     dict(name="random-tiebreak", mod="discrete", expect="fire", rule="R09.1", old="            maximized_node_times[child] = np.argmax(", new="            _ = np.random.random()\n            maximized_node_times[child] = np.argmax("),
     dict(name="hash-order", mod="prior", expect="fire", rule="R09.1", old="                    mixture_hash = (total_tips, span_arr.tobytes())", new="                    mixture_hash = hash((total_tips, span_arr.tobytes()))"),
     dict(name="time-in-result", mod="variational", expect="fire", rule="R09.1", old="        nodes_timing -= time.time()\n", new="        nodes_timing -= time.time()\n        self.edge_logconst[0] += nodes_timing\n"),
